@@ -116,6 +116,55 @@ const INVALID_SCRIPT_PCT: u64 = 2;
 /// probability (percent) of an op on an empty register / a side the kind does not have
 const INVALID_OP_PCT: u64 = 1;
 
+fn opk_of_name(n: &str) -> Option<OpK> {
+    Some(match n {
+        "push" => Push,
+        "pushinc" => PushInc,
+        "pushdec" => PushDec,
+        "chg" => Chg,
+        "chgby" => ChgBy,
+        "chgadd" => ChgAdd,
+        "remove" => Remove,
+        "peek" => Peek,
+        "peekmut" => PeekMut,
+        "pop" => Pop,
+        "popif" => PopIf,
+        "get" => Get,
+        "getprio" => GetPrio,
+        "getmut" => GetMut,
+        "len" => Len,
+        "isempty" => IsEmpty,
+        "clear" => Clear,
+        "new" => New,
+        "fromvec" => FromVec,
+        "fromiter" => FromIter,
+        "extend" => Extend,
+        "append" => Append,
+        "convert" => Convert,
+        "clone" => Clone,
+        "eq" => Eq,
+        "serde" => Serde,
+        "deser" => Deser,
+        "retain" => Retain,
+        "retainmut" => RetainMut,
+        "sortedvec" => SortedVec,
+        "intovec" => IntoVec,
+        "itermut" => IterMut,
+        "iter" => Iter,
+        "intoiter" => IntoIter,
+        "drain" => Drain,
+        "sortediter" => SortedIter,
+        "withcap" => WithCap,
+        "reserve" => Reserve,
+        "reservex" => ReserveX,
+        "tryreserve" => TryReserve,
+        "tryreservex" => TryReserveX,
+        "shrink" => Shrink,
+        "capacity" => Capacity,
+        _ => return None,
+    })
+}
+
 fn profile_column(name: &str) -> Option<(usize, bool)> {
     Some(match name {
         "core" => (0, false),
@@ -233,6 +282,8 @@ struct Params {
     prios: Prios,
     hashmode: u32,
     disputed: bool,
+    /// per-op weight multipliers (--exclude a,b = x0; --boost a:k = xk)
+    mult: Vec<(OpK, u32)>,
 }
 
 /// light shadow of a register: which keys are probably present, with what priority
@@ -624,6 +675,11 @@ impl<'a> Gen<'a> {
             .iter()
             .map(|(k, w)| {
                 let mut w = w[self.p.col] * 4;
+                for (mk, mm) in &self.p.mult {
+                    if mk == k {
+                        w *= *mm;
+                    }
+                }
                 if frac < grow_until {
                     match k {
                         Push => w *= 4,
@@ -1027,6 +1083,15 @@ fn gen_random(args: &[String]) -> Result<(), String> {
         return Err("--hashmode is 0..3".into());
     }
     let disputed = f.get("disputed", 1u32)? != 0;
+    let mut mult: Vec<(OpK, u32)> = vec![];
+    for n in f.get("exclude", String::new())?.split(',').filter(|x| !x.is_empty()) {
+        mult.push((opk_of_name(n).ok_or_else(|| format!("--exclude `{n}`"))?, 0));
+    }
+    for nb in f.get("boost", String::new())?.split(',').filter(|x| !x.is_empty()) {
+        let (n, b) = nb.split_once(':').ok_or_else(|| format!("--boost `{nb}`"))?;
+        let b: u32 = b.parse().map_err(|_| format!("--boost `{nb}`"))?;
+        mult.push((opk_of_name(n).ok_or_else(|| format!("--boost `{nb}`"))?, b));
+    }
     // the per-history PRNG depends on (seed, id) only, and --hashmode is only
     // written into the H header: accepted for compatibility, nothing to switch
     let _fixseed = f.get("fixseed", 1u32)?;
@@ -1034,7 +1099,7 @@ fn gen_random(args: &[String]) -> Result<(), String> {
     let outp: String = f.get("out", "-".to_string())?;
     f.done()?;
     let mut w = open_out(&outp)?;
-    let p = Params { len, kind, col, fuse, keys, prios, hashmode, disputed };
+    let p = Params { len, kind, col, fuse, keys, prios, hashmode, disputed, mult };
     let mut buf = String::new();
     for id in 0..count {
         if id % sn != si {
